@@ -16,7 +16,7 @@ struct Setup {
     int sub = 1; SplitMix iv(c.t.u16());
     for (int width : {1, 2, 4}) for (int direct = 0; direct < 2; direct++) for (int nid = 0; nid < 2; nid++)
       w.add_int(0x2000, (uint8_t)sub++, width, direct, nid, true, true, (uint32_t)iv.next());
-    w.add_domain(0x2100, 0, c.t.biased(1, c.thorough ? 4000 : 2000, MARKS, 8), true, true, (uint32_t)iv.next());
+    w.add_domain(0x2100, 0, c.t.chance(90) ? 890 + c.t.below((c.thorough ? 4000 : 2000) - 889) : c.t.biased(1, c.thorough ? 4000 : 2000, MARKS, 8), true, true, (uint32_t)iv.next());
     w.add_domain(0x2101, 0, c.t.biased(1, 64, MARKS, 3), true, true, (uint32_t)iv.next());
     junk32 = &w.add_int(0x2200, 0, 4, false, false, true, true, 0x12345678);
     junkdom = &w.add_domain(0x2201, 0, 50, true, true, 77);
@@ -55,7 +55,7 @@ void one_case(Ctx &c) {
   int ntransfers = 1 + (int)c.t.below(c.thorough ? 4 : 3);
   bool nt = false;
   for (int tr = 0; tr < ntransfers && !c.t.exhausted(); tr++) {
-    TObj &o = w.objs[c.t.below(14)];     // 12 integer kinds + 2 domains
+    TObj &o = w.objs[c.t.chance(80) ? 12 : c.t.below(14)];     // 12 integer kinds + 2 domains (the large one favoured)
     uint32_t mode = c.t.below(3);         // 0 expedited, 1 segmented, 2 block
     bool ind = c.t.coin();
     uint32_t plen;
@@ -71,12 +71,13 @@ void one_case(Ctx &c) {
       }
       if (mode == 0 && !ind) { plen = o.width; wrong_len = false; }     // e=1,s=0: the server takes the object's width from the 4 data bytes
     } else {
-      plen = c.t.chance(100) ? o.size : 1 + c.t.below(o.size);            // a DOMAIN accepts a partial write in every mode
+      plen = c.t.chance(140) ? o.size : 1 + c.t.below(o.size);            // a DOMAIN accepts a partial write in every mode
       if (mode == 0 && (plen > 4 || !ind)) mode = 1 + c.t.below(2);
     }
     if (mode == 0 && plen > 4) mode = 1;
-    std::vector<uint8_t> pay(plen); for (auto &b : pay) b = c.t.byte();
-    if (plen > 24) { SplitMix r(c.t.u32()); for (auto &b : pay) b = (uint8_t)r.next(); }
+    std::vector<uint8_t> pay(plen);
+    if (plen > 8) { SplitMix r(c.t.u16()); for (auto &b : pay) b = (uint8_t)r.next(); }   // large payloads must not eat the tape
+    else for (auto &b : pay) b = c.t.byte();
     std::vector<uint8_t> before = s.snapshot();
     SdoRes r;
     int max_losses = c.thorough ? 6 : 3;
@@ -125,7 +126,7 @@ Registrar reg(Prop{
     "in build n2 interleaved with traffic on the second server addressing other objects; 1 in 9 integer transfers use a wrong length and must then be refused without effect. "
     "Oracle: every response checked against CiA 301 (command, toggle, ackseq, block size 1..127, multiplexer), then a snapshot of ALL object storage must equal the snapshot before with exactly the payload applied. "
     "Non-trivial: a confirmed transfer of >= 2 request/response round trips, or a retransmission, or interleaved second-server traffic. Distinct = distinct decoded choice sequence.",
-    {Mode{"random", one_case, false, 600000, 20000000, 0, 0, 400, 800}},
+    {Mode{"random", one_case, false, 1500000, 30000000, 0, 0, 200, 400}},
     {"a payload longer than the object is outside the domain (the object cannot hold it); for integers a length different from the width must be refused",
      "losses never hit the final segment of a sub-block (a conforming client would time out and abort, which is no confirmed download)",
      "reserved bytes of responses are not compared; the next block size may be any value 1..127 and is honoured by the client"}});
